@@ -955,14 +955,14 @@ func (pk *Packet) SubscribeDecode(buf []byte) error {
 			Filter: filter,
 		}
 
+		option, offset, err = decodeByte(buf, offset)
+		if err != nil {
+			return ErrMalformedQos
+		}
+
 		if pk.ProtocolVersion == 5 {
-			sub.decode(buf[offset])
-			offset += 1
+			sub.decode(option)
 		} else {
-			option, offset, err = decodeByte(buf, offset)
-			if err != nil {
-				return ErrMalformedQos
-			}
 			sub.Qos = option
 		}
 
